@@ -25,6 +25,8 @@ NUMBERS = {
     "int": ["i", 3], "float": ["fl", (2.5).hex()], "Fraction": ["F", 7, 3],
     "Decimal": ["D", "1.25"], "StdDecimal": ["SD", "4.5"],
     "complex": ["cx", 1.0, 2.0],
+    "int-zero": ["i", 0], "float-zero": ["fl", (0.0).hex()],
+    "Decimal-zero": ["D", "0"], "Fraction-zero": ["F", 0, 1],
 }
 
 
@@ -37,17 +39,20 @@ def mixed_types_cases(chk, rng, w):
                 continue
             s1 = rng.choice([u.sym for u in w.units_of(t1)])
             s2 = rng.choice([u.sym for u in w.units_of(t2)])
-            a = Q(num(rand_fraction(rng, small=True)), s1)
-            b = Q(num(rand_fraction(rng, small=True)), s2)
+            za = rng.random() < 0.3
+            a = Q(num(F(0) if za else rand_fraction(rng, small=True)), s1)
+            b = Q(num(F(0) if za else rand_fraction(rng, small=True)), s2)
             steps = [{"id": "a", "e": a}, {"id": "b", "e": b}]
             for op in ["+", "-"] + ORDER_OPS + ["==", "!="]:
                 steps.append({"k": op, "e": OP(op, V("a"), V("b"))})
 
-            def judge(obs, rec, case, t1=t1, t2=t2, steps=steps):
+            def judge(obs, rec, case, t1=t1, t2=t2, steps=steps, za=za):
                 if not obs:
                     chk.inconclusive_because("mixed-type case not observed")
                     return
                 chk.case(("mixed", t1, t2))
+                if za:
+                    chk.count("mixed types with zero amounts")
                 for op in ["+", "-"] + ORDER_OPS:
                     chk.count("mixed types|" + op)
                     if not is_exc(obs.get(op), "IncompatibleUnitsError"):
@@ -207,6 +212,7 @@ def run(chk, R, tier, seed):
         chk.require("mixed types|" + op)
         chk.require("number left|" + op)
         chk.require("number right|" + op)
+    chk.require("mixed types with zero amounts")
     chk.require("triples with three distinct units")
     chk.require("same-type triples")
     chk.require("quantized type")
